@@ -208,6 +208,11 @@ _R_ASAN = re.compile(r'==\d+==\s*ERROR: AddressSanitizer: ([\w-]+)')
 _R_UBSAN = re.compile(r'^(\S+?):(\d+):(\d+): runtime error: (.*)$', re.M)
 _R_FRAME = re.compile(r'#\d+ 0x[0-9a-f]+ in (\S+) (\S+)')
 _R_TSAN = re.compile(r'WARNING: ThreadSanitizer: ([^\(\n]+)')
+_R_VG = re.compile(r'^==\d+== (Invalid (?:read|write) of size \d+|Conditional jump or move depends '
+                   r'on uninitialised value\(s\)|Use of uninitialised value of size \d+|'
+                   r'Invalid free\(\).*|Mismatched free\(\).*|Source and destination overlap.*|'
+                   r'Syscall param .* uninitialised.*)$', re.M)
+_R_VGFRAME = re.compile(r'(?:at|by) 0x[0-9A-F]+: (\S+) \(([^)]*)\)')
 
 
 def _top_cffi_frame(block):
@@ -249,6 +254,7 @@ def split_reports(text):
     pos = [(m.start(), 'ubsan', m) for m in _R_UBSAN.finditer(text)]
     pos += [(m.start(), 'asan', m) for m in _R_ASAN.finditer(text)]
     pos += [(m.start(), 'tsan', m) for m in _R_TSAN.finditer(text)]
+    pos += [(m.start(), 'memcheck', m) for m in _R_VG.finditer(text)]
     pos.sort(key=lambda x: x[0])
     for i, (st, k, m) in enumerate(pos):
         en = pos[i + 1][0] if i + 1 < len(pos) else len(text)
@@ -258,6 +264,17 @@ def split_reports(text):
             msg = re.sub(r'0x[0-9a-f]+', 'P', msg)
             kind = 'ubsan:' + msg[:90]
             frame = '%s:%s' % (os.path.basename(m.group(1)), m.group(2))
+        elif k == 'memcheck':
+            kind = 'memcheck:' + re.sub(r'\d+', 'N', m.group(1))[:60]
+            frame = '?'
+            for fm in _R_VGFRAME.finditer(block):
+                if '_cffi_backend' in fm.group(2) or '/src/c/' in fm.group(2) or \
+                        re.search(r'\b(minibuffer|wchar_helper|realize_c_type|parse_c_type|'
+                                  r'cdlopen|lib_obj|ffi_obj|cglob|call_python)', fm.group(2)):
+                    frame = fm.group(1)
+                    break
+            if frame == '?':
+                continue          # not in cffi code (interpreter / libc noise)
         elif k == 'asan':
             kind = 'asan:' + m.group(1)
             frame = _top_cffi_frame(block)
@@ -287,7 +304,9 @@ def _run_shard(modname, setup, cases, idxs, variant, tmp, timeout, shard_no, ext
                        'workdir': base + '.wd'}, f)
         logbase = base + '.san'
         env = build.child_env(variant, logbase=logbase, extra=extra_env)
-        cmd = build.python_cmd(variant) + ['-X', 'faulthandler', '-m', 'vlib.child',
+        cmd = build.python_cmd(variant, logbase) if variant == 'memcheck' else \
+            build.python_cmd(variant)
+        cmd = cmd + ['-X', 'faulthandler', '-m', 'vlib.child',
                                            modname, payload, outp]
         t0 = time.time()
         try:
@@ -354,7 +373,7 @@ def run_cases(ctx, modname, setup, cases, variant='asan', nproc=None, timeout=60
     sharded over nproc processes.  Returns list of obs aligned with cases."""
     if not cases:
         return []
-    build.backend(variant)
+    build.backend('plain' if variant == 'memcheck' else variant)
     if nproc is None:
         # ASan'd interpreters do not scale on this VM (page-fault handling is
         # serialised system-wide: 16 parallel children take 16x one child), so
@@ -426,6 +445,18 @@ def drive(mod, ctx):
         if std_obs_check(ctx, c, o, getattr(mod, 'CRASH_DECIDES', True),
                          getattr(mod, 'SAN_DECIDES', True), getattr(mod, 'san_mechanism', None)):
             mod.judge(ctx, setup, c, o)
+    n = getattr(mod, 'MEMCHECK_SAMPLE', 0)
+    if n and (ctx.thorough or os.environ.get('VERIF_MEMCHECK')):
+        # valgrind memcheck on a sample of the same cases (plain backend):
+        # uninitialised-value use and invalid accesses that ASan cannot see.
+        sample = cases[:n] if not hasattr(mod, 'memcheck_cases') else mod.memcheck_cases(ctx, cases)
+        mobs = run_cases(ctx, mod.__name__.split('.')[-1], setup, sample, variant='memcheck',
+                         nproc=min(8, len(sample)), timeout=3600)
+        for c, o in zip(sample, mobs):
+            ctx.count('memcheck_cases')
+            if std_obs_check(ctx, c, o, getattr(mod, 'CRASH_DECIDES', True), True,
+                             getattr(mod, 'san_mechanism', None)):
+                mod.judge(ctx, setup, c, o)
     if hasattr(mod, 'finalize'):
         mod.finalize(ctx, setup)
 
